@@ -231,16 +231,19 @@ func VH_C17_overlap(linear, ttl, nBefore, nAfter int) {
 	wctx := ctx.SubContext()
 	loc, err := sys.findLocation(wctx, "shared", true)
 	vassume(err == nil && loc != nil)
+	// the other requests go to the writer's location or to one nobody has asked for yet
+	// (a cache miss: C11's "requests to different locations do not interfere")
+	target := func(tag string) string { return []string{"shared", "other" + tag}[vchoose(2)] }
 	for i := 0; i < nBefore; i++ {
 		tick("b" + strconv.Itoa(i))
-		sys.GetFact(ctx.SubContext(), "shared", "k")
+		sys.GetFact(ctx.SubContext(), target("b"+strconv.Itoa(i)), "k")
 	}
 	tick("w")
 	_, err = loc.AddFact(wctx, "k", Map{"a": "1"})
 	vassume(err == nil)
 	for i := 0; i < nAfter; i++ {
 		tick("a" + strconv.Itoa(i))
-		sys.GetFact(ctx.SubContext(), "shared", "k")
+		sys.GetFact(ctx.SubContext(), target("a"+strconv.Itoa(i)), "k")
 	}
 	tick("r")
 	vassume(sys.releaseLocation(wctx, "shared") == nil)
